@@ -299,7 +299,7 @@ impl Prop for C12 {
          ENUMERATED exhaustively: producer histories of 0..=4 writes with sizes from {0,1,17,8192,70000} then drop (781 histories) x staging {memory, temp file} x consumer programs \
          {switch at every position 0..=n+1 then await_real_file; expect_closed_write; len() then expect_closed_write}, readiness polled between all calls, destination pre-loaded with a prefix, destination accepting everything or at most 4096 bytes per write() call (generated: 1 byte .. 8 KiB); \
          oracle: destination = prefix ++ writes, once, in order; len() = bytes written; ready <=> dropped. THREADED: the same programs on two threads, await started before the drop, seeded delay schedules at the \
-         cfg(bigtools_verif) delay points, must also return within the deadline. GENERATED: histories with arbitrary sizes up to 200 kB. \
+         cfg(bigtools_verif) delay points, must also return within the deadline. GENERATED: histories with arbitrary sizes up to 200 kB, one in four with a round byte total (powers of two, 8000 .. 192000) cut at generated points. \
          non-trivial = the switch lands strictly between two writes with staged data present (sequential: by construction; threaded: hook counter); each enumerated interleaving is distinct by construction"
             .into()
     }
@@ -322,7 +322,7 @@ impl Prop for C12 {
         tier.pick(100_000, 1_000_000)
     }
     fn strategy(_tier: Tier) -> BoxedStrategy<Case> {
-        let sizes = proptest::collection::vec(
+        let free_sizes = proptest::collection::vec(
             prop_oneof![
                 3 => select(SIZES.to_vec()),
                 3 => 0u32..100,
@@ -331,6 +331,25 @@ impl Prop for C12 {
             ],
             0..=6,
         );
+        // histories whose byte total is a "round" number (buffer and block sizes are powers of two or
+        // decimal round numbers): the total is chosen first, then cut at generated points
+        let round_total = (
+            select(vec![4096u32, 8192, 16_384, 32_768, 65_536, 131_072, 8000, 10_000, 16_000, 32_000, 64_000, 100_000, 128_000, 192_000]),
+            proptest::collection::vec(any::<u16>(), 0..=4),
+        )
+            .prop_map(|(total, cuts)| {
+                let mut at: Vec<u32> = cuts.iter().map(|c| ((*c as u64 * (total as u64 + 1)) >> 16) as u32).collect();
+                at.sort_unstable();
+                let mut sizes = vec![];
+                let mut prev = 0u32;
+                for a in at {
+                    sizes.push(a - prev);
+                    prev = a;
+                }
+                sizes.push(total - prev);
+                sizes
+            });
+        let sizes = prop_oneof![3 => free_sizes, 1 => round_total];
         let threaded = (
             any::<bool>(),
             sizes.clone(),
@@ -373,6 +392,20 @@ impl Prop for C12 {
         let mut v = vec![];
         for inmemory in [true, false] {
             v.push(Case::Grid { inmemory, max_writes: tier.pick(4, 4) });
+        }
+        // round byte totals, as one write and as two, under every consumer program
+        for total in [4096u32, 8192, 16_384, 32_768, 65_536, 131_072, 8000, 10_000, 16_000, 32_000, 64_000, 100_000, 128_000, 192_000] {
+            for inmemory in [true, false] {
+                for sizes in [vec![total], vec![total / 2, total - total / 2], vec![1, total - 1]] {
+                    let n = sizes.len() as u8;
+                    let mut programs: Vec<Program> = (0..=n + 1).map(|pos| Program::SwitchAwait { pos }).collect();
+                    programs.push(Program::ClosedWrite);
+                    programs.push(Program::LenThenClosedWrite);
+                    for program in programs {
+                        v.push(Case::Seq { inmemory, sizes: sizes.clone(), program, prefix: 2, cap: 0 });
+                    }
+                }
+            }
         }
         v
     }
